@@ -8,10 +8,23 @@ Local Open Scope float_scope.
 (* oracle table: (nu, x, value); nu = -1 encodes Gamma.  Lookup tolerates 1e-12 relative
    difference in the argument; a missing entry yields NaN (counted as a divergence). *)
 Definition otable := list (float * float * float).
-Fixpoint olookup (ktol : float) (t : otable) (nu x : float) : float :=
+(* nearest key with the requested nu; accepted only if within ktol (relative); NaN otherwise *)
+Fixpoint onearest (t : otable) (nu x : float) (best : option (float * float)) : option (float * float) :=
   match t with
-  | [] => nan
-  | (n, k, v) :: r => if fclose 0x1p-38 zero n nu && fclose ktol zero k x then v else olookup ktol r nu x
+  | [] => best
+  | (n, k, v) :: r =>
+      if fclose 0x1p-38 zero n nu then
+        let d := abs (k - x) in
+        match best with
+        | Some (bd, _) => if d <? bd then onearest r nu x (Some (d, v)) else onearest r nu x best
+        | None => onearest r nu x (Some (d, v))
+        end
+      else onearest r nu x best
+  end.
+Definition olookup (ktol : float) (t : otable) (nu x : float) : float :=
+  match onearest t nu x None with
+  | Some (d, v) => if d <=? ktol * fmax (abs x) (d + abs x) then v else nan
+  | None => nan
   end.
 
 Definition f32 (x : float) : float :=
